@@ -179,10 +179,10 @@ func addNoise(t *rapid.T, phys []string) ([]string, []string) {
 				out = append(out, rapid.SampledFrom([]string{"", "   ", "\t"}).Draw(t, "blank"))
 				kinds["blank"] = true
 			case 1:
-				out = append(out, rapid.SampledFrom([]string{"; comment", ";", "  ; key = value", ";[section]"}).Draw(t, "sc"))
+				out = append(out, rapid.SampledFrom([]string{"; comment", ";", "  ; key = value", ";[section]", "; see C:\\data\\", "; continued? \\"}).Draw(t, "sc"))
 				kinds["semicolon comment"] = true
 			case 2:
-				out = append(out, rapid.SampledFrom([]string{"# comment", "#", "\t# key = value", "#[x"}).Draw(t, "hc"))
+				out = append(out, rapid.SampledFrom([]string{"# comment", "#", "\t# key = value", "#[x", "# trailing backslash \\"}).Draw(t, "hc"))
 				kinds["hash comment"] = true
 			case 3:
 				out = append(out, "; "+strings.Repeat("long comment ", 5500))
